@@ -276,7 +276,12 @@ def make_func(ctx: Ctx, spec: dict, flavour: str):
             finally:
                 ctx.inflight -= 1
 
-    ns = {"_impl": _impl}
+    consts = spec.get("consts")
+    if consts:
+        # a function whose code differs from its re-declared twin ONLY in the roles of two constants: the node's identity is
+        # passed through a global (not a code constant), the two constants are literals in the body and end up in the arguments
+        src = src.replace(f"_impl('{fid}', {args})", "_impl(_fid, (" + "".join(f"{p}, " for p in params) + "".join(f"{c!r}, " for c in consts) + "))")
+    ns = {"_impl": _impl, "_fid": fid}
     for p, v in defaults.items():
         ns[f"_d_{p}"] = v
     for p, t in ann.items():
